@@ -171,4 +171,58 @@ example : (splitIndices [3,1,0,2,4] 2 (some (fun m => m / 2))) = ⟨[2,4], [3,1]
 example : loaderBatches 7 7 3 = some [([0,1,2],[0,1,2]), ([3,4,5],[3,4,5])] := by decide
 example : oneHot [3, -1, 3] = [[0,1],[1,0],[0,1]] := by decide
 
+/-! ### the loader is re-iterable from the start, whatever happened to it before -/
+
+/-- consuming at most `k` items from a cursor at `s ≤ len` yields the batches `s, s+1, …` (at most `k`, at most to the end) -/
+theorem consume_spec (k : Nat) (l : Loader) (hb : 0 < l.b) (hs : l.step ≤ l.ny / l.b) :
+    ∃ l', l.consume k = some (((List.range (min k (l.ny / l.b - l.step))).map (fun j => loaderItem l.nx l.ny l.b (l.step + j))), l')
+      ∧ l'.nx = l.nx ∧ l'.ny = l.ny ∧ l'.b = l.b ∧ l'.step ≤ l'.ny / l'.b := by
+  induction k generalizing l with
+  | zero => exact ⟨l, by simp [Loader.consume], rfl, rfl, rfl, hs⟩
+  | succ k ih =>
+    have hb0 : l.b ≠ 0 := by omega
+    by_cases hlt : l.step < l.ny / l.b
+    · obtain ⟨l', h1, h2, h3, h4, h5⟩ := ih { l with step := l.step + 1 } hb (by show l.step + 1 ≤ l.ny / l.b; omega)
+      refine ⟨l', ?_, h2, h3, h4, h5⟩
+      simp only [Loader.consume, Loader.next, loaderLen, hb0, if_false, Option.map_some, hlt, if_true]
+      simp only at h1
+      rw [h1]
+      simp only [Option.map_some]
+      have : min (k + 1) (l.ny / l.b - l.step) = min k (l.ny / l.b - (l.step + 1)) + 1 := by omega
+      rw [this, List.range_succ_eq_map, List.map_cons, List.map_map]
+      simp only [Nat.add_zero, Option.some.injEq, Prod.mk.injEq, List.cons.injEq, true_and, and_true]
+      apply List.map_congr_left
+      intro j _
+      simp only [Function.comp, Nat.add_assoc, Nat.add_comm 1 j]
+    · refine ⟨l, ?_, rfl, rfl, rfl, hs⟩
+      simp only [Loader.consume, Loader.next, loaderLen, hb0, if_false, Option.map_some, hlt]
+      have : l.ny / l.b - l.step = 0 := by omega
+      simp [this]
+
+/-- **Re-iterable from the start.** Whatever the cursor was left at by earlier (complete or abandoned) loops,
+    a new `for` loop sees the batches `0, 1, 2, …` — exactly the first `k` of the full pass when it is
+    abandoned after `k` items, the full pass otherwise — and leaves the loader with the same data. -/
+theorem loader_reiterable (l : Loader) (k : Nat) (hb : 0 < l.b) :
+    ∃ l', l.forLoop k = some (((List.range (l.ny / l.b)).map (loaderItem l.nx l.ny l.b)).take k, l')
+      ∧ l'.nx = l.nx ∧ l'.ny = l.ny ∧ l'.b = l.b := by
+  obtain ⟨l', h1, h2, h3, h4, _⟩ := consume_spec k l.iter hb (by simp [Loader.iter])
+  refine ⟨l', ?_, h2, h3, h4⟩
+  simp only [Loader.iter, Nat.sub_zero, Nat.zero_add] at h1
+  simp only [Loader.forLoop, Loader.iter, h1]
+  rw [← List.map_take, List.take_range]
+
+/-- hence every loop of any program of loops over one loader object starts from batch 0 -/
+theorem loops_all_from_start (ks : List Nat) (l : Loader) (hb : 0 < l.b) :
+    l.loops ks = some (ks.map (fun k => ((List.range (l.ny / l.b)).map (loaderItem l.nx l.ny l.b)).take k)) := by
+  induction ks generalizing l with
+  | nil => rfl
+  | cons k ks ih =>
+    obtain ⟨l', h1, h2, h3, h4⟩ := loader_reiterable l k hb
+    simp only [Loader.loops, h1, List.map_cons]
+    rw [ih l' (h4 ▸ hb), h2, h3, h4]
+    rfl
+
+example : (Loader.loops [1, 5, 0, 2] { nx := 7, ny := 7, b := 3, step := 0 })
+    = some [[([0,1,2],[0,1,2])], [([0,1,2],[0,1,2]), ([3,4,5],[3,4,5])], [], [([0,1,2],[0,1,2]), ([3,4,5],[3,4,5])]] := by decide
+
 end Props.C18
